@@ -140,7 +140,7 @@ def solution_roundtrip_rules(repo, res, RULE="SOL-ID", gram=None):
     cooperative solutions with planning problem ids that are not in insertion order"""
     if gram is None:
         sid_ = repo.cls(SC, "ScenarioID")
-        pv_ = Ev(repo).ev(sid_.class_assigns.get("benchmark_id_pattern"), {"__mod__": sid_.mod}, sid_.mod)
+        pv_ = Ev(repo).ev(sid_.class_assigns.get("benchmark_id_pattern"), {"__mod__": sid_.mod, "__clsbody__": sid_}, sid_.mod)
         gram = Grammar(pv_.pattern)
     # ---- solution ids
     smod = repo.mod(SO)
